@@ -24,9 +24,12 @@ def writer_values(w, defs, quick, rng):
     strlens = [0, 1, 5] if quick else [0, 1, 255, 257, 2049]
     vals = list(U.struct_variants(w, defs, sizes, strlens))
     if quick and len(vals) > 60:
-        head, rest = vals[:2], vals[2:]
+        # always kept: base, zero, and every variant of a struct-typed field (nil / full / sparse nested value)
+        byk = {f["key"]: f for f in defs[w]["fields"]}
+        must = [x for x in vals[2:] if "=" in x[0] and byk.get(x[0].lstrip("z").split("=")[0], {}).get("t", {}).get("k") == "struct"]
+        head, rest = vals[:2] + must, [x for x in vals[2:] if x not in must]
         rng.shuffle(rest)
-        vals = head + rest[:58]
+        vals = head + rest[:max(0, 60 - len(head))]
     return vals
 
 
@@ -41,6 +44,11 @@ def pair_cases(prop, defs, pairs, quick, rng, per_pair):
         vals = wvals[w]
         pp = len(vals) if label.startswith("same") else per_pair     # the unchanged schema gets every value
         picks = vals if pp >= len(vals) else ([vals[0]] + rng.sample(vals[1:], pp - 1))
+        if label.startswith("same"):
+            # larger values (many elements, strings beyond the small-object threshold): decoded, then kept across collections
+            wt = {"k": "struct", "ptr": False, "s": w}
+            for j, (cs, ln) in enumerate(((20, 40), (6, 300), (40, 9))):
+                picks = picks + [("big%d" % j, U.lengthen(wt, U.base_value(wt, defs, 2, 11 + j, cs), ln, defs))]
         for (vl, v) in picks:
             n += 1
             cid = "%s-%s-%s-%s-%d" % (prop, w, t, vl, n)
@@ -49,13 +57,16 @@ def pair_cases(prop, defs, pairs, quick, rng, per_pair):
     return cases, plans
 
 
-def decode_scenario(prop, cid, t, msg, dest_mode, defs, w=None, wv=None, label="", two_hop=False, extra_tags=()):
+def decode_scenario(prop, cid, t, msg, dest_mode, defs, w=None, wv=None, label="", two_hop=False, extra_tags=(), gc=False):
     vals = []
     st = {"op": "decode", "ty": t, "in": msg, "dest": dest_mode}
     if dest_mode == "val":
         vals.append(U.base_value({"k": "struct", "ptr": False, "s": t}, defs, 2, 7))
         st["dv"] = 0
     steps = [st]
+    if gc:
+        # the decoded value must survive collections and reuse of freed memory (all of it is reachable from the object)
+        steps += [{"op": "gc"}, {"op": "recheck", "obj": 0, "after": "gc"}]
     if two_hop:
         # re-encode the decoded object with the reader's schema, then read it with the writer's
         vals.append(wv)
@@ -85,8 +96,13 @@ def run_pairs(prop, tier, seed, work, res, defs, pairs, per_pair, two_hop=False,
         if th:
             import checks_codec
             tags = checks_codec.struct_tags(w, v, defs)
-        scen.append(decode_scenario(prop, cid, t, m, dest, defs, w=w, wv=v, label=label, two_hop=th, extra_tags=tags))
-    return Batch(name, defs, scen)
+        scen.append(decode_scenario(prop, cid, t, m, dest, defs, w=w, wv=v, label=label, two_hop=th, extra_tags=tags,
+                                    gc=(not th and (n % 4 == 0 or "-big" in cid))))
+        if label.startswith("same") and dest != "val":
+            # the unchanged schema: every value also over a fully populated destination (nothing of the old
+            # nested values may remain where the message carries a sparser one)
+            scen.append(decode_scenario(prop, cid + "-val", t, m, "val", defs, w=w, wv=v, label=label))
+    return Batch(name, defs, scen, env={"GODEBUG": "clobberfree=1"})
 
 
 RULES = {
